@@ -14,3 +14,23 @@ Print Assumptions C04_can_get_granted_iff.
 Theorem C04_transient_errors_not_stored : forall a, stored a = false -> a = AErr false.
 Proof. exact transient_errors_not_stored. Qed.
 Print Assumptions C04_transient_errors_not_stored.
+
+From RG Require Import Comp.SubFsm Proofs.SubFsmProofs.
+
+(* On the subscription machine (tied to the code by the `subfsm` direct drive): a re-access trigger that is handled drops
+   the cached verdict, arms the event guard and leaves an access request outstanding whose answer will be validated. *)
+Theorem C04_trigger_drops_verdict_and_arms_guard : forall s,
+  st s <> Disposed -> queueing s = false -> 0 < direct s ->
+  let s' := fst (step s OpReaccess) in
+  acc s' = None /\ qR s' = true /\ fCalled s' = true /\ In KValidate (acbs s').
+Proof. exact trigger_drops_verdict_and_arms_guard. Qed.
+Print Assumptions C04_trigger_drops_verdict_and_arms_guard.
+
+(* The stronger statement - the outstanding request was SENT after the trigger - is false of the unchanged code (recorded
+   finding KF-REACCESS-INFLIGHT); the witness runs identically on the implementation in the `subfsm` stage. *)
+Theorem C04_trigger_sends_request_refuted :
+  exists ops, let '(s, _) := run init ops in
+    st s = Sent /\ queueing s = false /\ 0 < direct s /\ snd (step s OpReaccess) = [] /\
+    snd (step (fst (step s OpReaccess)) (OpAnswer AGrant)) = [OCont 1 VOk].
+Proof. exact trigger_sends_request_refuted. Qed.
+Print Assumptions C04_trigger_sends_request_refuted.
